@@ -41,6 +41,9 @@ pub fn run(rng: &mut Rng, n: usize, outdir: &std::path::Path, flavour: &str) {
                     let start = if use_startpos { Board::default() } else {
                         let mut b = loop { if let Some(b) = crate::csearch::small_position(&g, rng) { break b; } };
                         if rng.chance(1, 3) { b = Board::new(*rng.pick(posgen::CORPUS)); }
+                        // forced replies (exactly one legal move) and positions without a legal move are where shortcuts live
+                        if rng.chance(1, 5) { if let Some(f) = crate::csearch::single_reply_position(&g, rng) { b = f; } }
+                        if rng.chance(1, 12) { b = Board::new(*rng.pick(&["7k/5Q2/6K1/8/8/8/8/8 b - - 0 1", "7k/6Q1/6K1/8/8/8/8/8 b - - 0 1", "k7/8/1K6/8/8/8/8/R7 b - - 0 1", "7k/8/2p1n1p1/3pP3/4K3/r7/8/8 w - d6 0 2", "8/8/R7/4k3/3Pp3/2P1N1P1/8/7K b - d3 0 2", "r3k3/8/8/3b4/8/8/8/R3K3 w q - 0 1", "4k2r/6K1/8/8/8/8/8/8 b k - 0 1"])); }
                         if !crate::refchess::valid(&b) { Board::default() } else { b }
                     };
                     let mut b = start;
@@ -48,7 +51,8 @@ pub fn run(rng: &mut Rng, n: usize, outdir: &std::path::Path, flavour: &str) {
                     // one game in three shuffles pieces back and forth, so that the position searched (and its successors)
                     // already occurred in the history given with the command
                     let shuffle = rng.chance(1, 3);
-                    for _ in 0..(if shuffle { 4 + rng.below(10) } else { rng.below(12) }) {
+                    let keep_start = !use_startpos && g.mg.generate_moves(&start).len() <= 1;
+                    for _ in 0..(if keep_start { 0 } else if shuffle { 4 + rng.below(10) } else { rng.below(12) }) {
                         let ms = g.mg.generate_moves(&b);
                         if ms.is_empty() { break; }
                         let m = if shuffle && played.len() >= 2 && rng.chance(4, 5) {
